@@ -6,8 +6,10 @@ sys.path.insert(0, os.path.dirname(os.path.dirname(os.path.abspath(__file__))))
 from tools import build
 
 VERIF = build.VERIF
-EVID = os.path.join(VERIF, 'evidence')
-REPLAYS = os.path.join(VERIF, 'replays')
+# VERIF_SCRATCH_OUT: runs against a deliberately broken tree (tools/seedtest.py) must not overwrite the evidence of the real tree
+_OUT = os.environ.get('VERIF_SCRATCH_OUT') or VERIF
+EVID = os.path.join(_OUT, 'evidence')
+REPLAYS = os.path.join(_OUT, 'replays')
 ASAN_ENV = dict(os.environ,
                 ASAN_OPTIONS='detect_leaks=0:abort_on_error=1:allocator_may_return_null=1:handle_abort=1:max_allocation_size_mb=4096:detect_stack_use_after_return=0',
                 UBSAN_OPTIONS='print_stacktrace=1:halt_on_error=1')
